@@ -130,3 +130,57 @@ pub fn deser_char_string<const N: usize>() {
     }
     vk::leak(t);
 }
+
+
+/// wire: NIL_EXT / a one-element LIST_EXT read back as a sequence and as an optional sequence.  `None` travels as the atom
+/// `undefined`, so an empty list must come back as `Some(vec![])`, never as `None`.
+pub fn wire_seq(n: u8, optional: bool) {
+    let x = vk::u8();
+    let mut out = Out::new();
+    out.push(131);
+    if n == 0 {
+        out.push(106);
+    } else {
+        out.push(108);
+        out.push(0);
+        out.push(0);
+        out.push(0);
+        out.push(1);
+        out.push(97);
+        out.push(x);
+        out.push(106);
+    }
+    match erltf::decode(out.bytes()) {
+        Ok(d) => {
+            if optional {
+                match from_term::<Option<Vec<u8>>>(&d) {
+                    Ok(Some(v)) => {
+                        vassert!(v.len() == n as usize && (n == 0 || v[0] == x), "L:wire_roundtrip_value");
+                        vk::leak(v);
+                    }
+                    Ok(None) => vassert!(false, "L:wire_some_sequence_is_not_none"),
+                    Err(e) => {
+                        vassert!(false, "L:wire_roundtrip_ok");
+                        vk::leak(e);
+                    }
+                }
+            } else {
+                match from_term::<Vec<u8>>(&d) {
+                    Ok(v) => {
+                        vassert!(v.len() == n as usize && (n == 0 || v[0] == x), "L:wire_roundtrip_value");
+                        vk::leak(v);
+                    }
+                    Err(e) => {
+                        vassert!(false, "L:wire_roundtrip_ok");
+                        vk::leak(e);
+                    }
+                }
+            }
+            vk::leak(d);
+        }
+        Err(e) => {
+            vassert!(false, "L:wire_decode_ok");
+            vk::leak(e);
+        }
+    }
+}
